@@ -1,10 +1,9 @@
 use std::ops::Shl;
 use std::sync::LazyLock;
 
+use cairo_lang_utils::require;
 use cairo_lang_utils::unordered_hash_map::UnorderedHashMap;
 use cairo_lang_utils::unordered_hash_set::UnorderedHashSet;
-use cairo_lang_utils::{extract_matches, require};
-use itertools::Itertools;
 use num_bigint::BigInt;
 use num_traits::{One, Signed, ToPrimitive, Zero};
 
@@ -1059,8 +1058,10 @@ fn get_circuit_info(
     //
     // The stack contains pairs of (type, first_visit).
     let mut stack: Vec<(ConcreteTypeId, bool)> = circ_outputs
-        .map(|generic_arg| (extract_matches!(generic_arg, GenericArg::Type).clone(), true))
-        .collect();
+        .map(|generic_arg| Ok((type_generic_arg(generic_arg)?.clone(), true)))
+        .collect::<Result<_, SpecializationError>>()?;
+    // The gates whose inputs are currently being visited - revisiting one means a cyclic circuit.
+    let mut in_progress = UnorderedHashSet::<ConcreteTypeId>::default();
 
     while let Some((ty, first_visit)) = stack.pop() {
         let long_id = &context.get_type_info(&ty)?.long_id;
@@ -1073,42 +1074,60 @@ fn get_circuit_info(
         let gate_inputs = long_id
             .generic_args
             .iter()
-            .map(|generic_arg| extract_matches!(generic_arg, GenericArg::Type));
+            .map(type_generic_arg)
+            .collect::<Result<Vec<_>, SpecializationError>>()?;
 
         if first_visit {
+            require(in_progress.insert(ty.clone()))
+                .ok_or(SpecializationError::UnsupportedGenericArg)?;
             stack.push((ty, false));
-            stack.extend(gate_inputs.map(|ty| (ty.clone(), true)))
+            stack.extend(gate_inputs.into_iter().map(|ty| (ty.clone(), true)))
         } else {
             let output_offset = 1 + n_inputs + values.len();
-            let mut input_offsets = gate_inputs.map(|ty| values[ty]);
+            let mut input_offsets = gate_inputs
+                .into_iter()
+                .map(|ty| values.get(ty).copied().ok_or(SpecializationError::UnsupportedGenericArg))
+                .collect::<Result<Vec<_>, SpecializationError>>()?
+                .into_iter();
+            let mut next_input =
+                || input_offsets.next().ok_or(SpecializationError::UnsupportedGenericArg);
 
             if long_id.generic_id == AddModGate::ID {
-                let [lhs, rhs] = input_offsets.next_array().unwrap();
+                let (lhs, rhs) = (next_input()?, next_input()?);
                 add_offsets.push(GateOffsets { lhs, rhs, output: output_offset });
             } else if long_id.generic_id == SubModGate::ID {
                 // output = sub_lhs - sub_rhs => output + sub_rhs = sub_lhs.
-                let [sub_lhs, sub_rhs] = input_offsets.next_array().unwrap();
+                let (sub_lhs, sub_rhs) = (next_input()?, next_input()?);
                 add_offsets.push(GateOffsets { lhs: output_offset, rhs: sub_rhs, output: sub_lhs });
             } else if long_id.generic_id == MulModGate::ID {
-                let [lhs, rhs] = input_offsets.next_array().unwrap();
+                let (lhs, rhs) = (next_input()?, next_input()?);
                 mul_offsets.push(GateOffsets { lhs, rhs, output: output_offset });
             } else if long_id.generic_id == InverseGate::ID {
                 // output = 1 / input => 1 = output * input.
                 // Note that the gate will fail if the input is not invertible.
                 // Evaluating this gate successfully implies that input is invertible.
-                let rhs = input_offsets.next().unwrap();
+                let rhs = next_input()?;
                 mul_offsets.push(GateOffsets { lhs: output_offset, rhs, output: ONE_OFFSET });
             } else {
                 return Err(SpecializationError::UnsupportedGenericArg);
             };
 
             // Make sure all the gate inputs were consumed.
-            assert!(input_offsets.next().is_none());
+            require(input_offsets.next().is_none())
+                .ok_or(SpecializationError::UnsupportedGenericArg)?;
             values.insert(ty.clone(), output_offset);
         }
     }
 
     Ok(CircuitInfo { n_inputs, values, add_offsets, mul_offsets })
+}
+
+/// Returns the type of a generic argument that is expected to be a type.
+fn type_generic_arg(generic_arg: &GenericArg) -> Result<&ConcreteTypeId, SpecializationError> {
+    match generic_arg {
+        GenericArg::Type(ty) => Ok(ty),
+        _ => Err(SpecializationError::UnsupportedGenericArg),
+    }
 }
 
 /// Parses the circuit inputs and returns `ParsedInputs`.
@@ -1117,8 +1136,8 @@ fn parse_circuit_inputs<'a>(
     circuit_outputs: impl Iterator<Item = &'a GenericArg>,
 ) -> Result<ParsedInputs, SpecializationError> {
     let mut stack: Vec<ConcreteTypeId> = circuit_outputs
-        .map(|generic_arg| extract_matches!(generic_arg, GenericArg::Type).clone())
-        .collect();
+        .map(|generic_arg| type_generic_arg(generic_arg).cloned())
+        .collect::<Result<_, SpecializationError>>()?;
 
     let mut inputs: UnorderedHashMap<usize, ConcreteTypeId> = Default::default();
 
@@ -1135,15 +1154,13 @@ fn parse_circuit_inputs<'a>(
             let idx = args_as_single_value(&long_id.generic_args)?
                 .to_usize()
                 .ok_or(SpecializationError::UnsupportedGenericArg)?;
-            assert!(inputs.insert(idx, ty).is_none());
+            require(inputs.insert(idx, ty).is_none())
+                .ok_or(SpecializationError::UnsupportedGenericArg)?;
         } else {
             // generic_id must be a gate. This was validated in `validate_output_tuple`.
-            stack.extend(
-                long_id
-                    .generic_args
-                    .iter()
-                    .map(|generic_arg| extract_matches!(generic_arg, GenericArg::Type).clone()),
-            );
+            for generic_arg in &long_id.generic_args {
+                stack.push(type_generic_arg(generic_arg)?.clone());
+            }
         }
     }
 
